@@ -59,6 +59,46 @@ theorem atH_heldAt (ar : Arena) (hw : LinkWF ar) (bi : Nat) (m : Int) (d : HData
           obtain ⟨bj, hle, hheld⟩ := ih p hlt h
           exact ⟨bj, by omega, hheld⟩
 
+/-- the very record `AtHeight` returns sits in some branch at the position of that height. -/
+theorem atH_data (ar : Arena) (hw : LinkWF ar) (bi : Nat) (m : Int) (d : HData)
+    (h : atH ar bi m = some d) : ∃ (bj : Nat) (b : Branch) (k : Nat), ar[bj]? = some b ∧ b.headers[k]? = some d ∧
+      m = b.parentHeight + 1 + (k : Int) := by
+  induction bi using Nat.strongRecOn with
+  | _ bi ih =>
+    cases hb : ar[bi]? with
+    | none => unfold atH at h; simp [atHeight, hb] at h
+    | some b =>
+      have hl := hw.each bi b hb
+      rw [atH_unfold ar hw.dec bi b hb] at h
+      by_cases h1 : m > b.parentHeight
+      · simp only [h1, ↓reduceIte] at h
+        unfold getI at h
+        split at h
+        · cases h
+        · have hoff := hl.off
+          exact ⟨bi, b, (m - b.parentHeight - b.offset).toNat, hb, h, by omega⟩
+      · simp only [h1, ↓reduceIte] at h
+        cases hpar : b.parent with
+        | none => rw [hpar] at h; cases h
+        | some p =>
+          rw [hpar] at h
+          simp only at h
+          exact ih p (hw.dec bi b hb p hpar) h
+
+/-- two lookups that return headers with the same id return the same record. -/
+theorem atH_same_id (ar : Arena) (hw : LinkWF ar) (bs : List Nat) (hi : IdWF ar bs) (b1 b2 : Nat) (k1 k2 : Int)
+    (x y : HData) (hx : atH ar b1 k1 = some x) (hy : atH ar b2 k2 = some y) (hid : x.hdr.id = y.hdr.id) :
+    x = y ∧ k1 = k2 := by
+  obtain ⟨j1, c1, n1, hc1, hn1, hk1⟩ := atH_data ar hw b1 k1 x hx
+  obtain ⟨j2, c2, n2, hc2, hn2, hk2⟩ := atH_data ar hw b2 k2 y hy
+  obtain ⟨rfl, rfl⟩ := hi.uniq j1 j2 c1 c2 n1 n2 x y hc1 hc2 hn1 hn2 hid
+  rw [hc1] at hc2
+  simp only [Option.some.injEq] at hc2
+  subst hc2
+  rw [hn1] at hn2
+  simp only [Option.some.injEq] at hn2
+  exact ⟨hn2, by rw [hk1, hk2]⟩
+
 /-- the tip of a branch is what `AtHeight` returns at its height. -/
 theorem atH_tip (ar : Arena) (hw : LinkWF ar) (bi : Nat) (b : Branch) (hb : ar[bi]? = some b) (l : HData)
     (hl : b.last? = some l) : atH ar bi b.height = some l := by
